@@ -24,6 +24,11 @@
 #include <sstream>
 #include <unordered_map>
 #include <cxxabi.h>
+#include <complex>
+#include <poll.h>
+#include <signal.h>
+#include <sys/wait.h>
+#include <unistd.h>
 
 using namespace llvm;
 
@@ -43,7 +48,7 @@ static std::string demangle(const std::string &n)
 }
 
 struct PathEnd {
-    std::string kind; // ok, throw, violation, inconclusive, infeasible
+    std::string kind; // ok, throw, violation, inconclusive, infeasible, known
     std::string msg;
 };
 
@@ -111,6 +116,8 @@ static z3::expr toBV(const Val &v, unsigned w)
         return z3::ite(v.e, Z.bv_val(1, w), Z.bv_val(0, w));
     if (s.is_fpa())
         return z3::expr(Z, Z3_mk_fpa_to_ieee_bv(Z, v.e));
+    if (s.is_real() || s.is_int())
+        throw PathEnd{"inconclusive", "bit-level use of a real-mode value"};
     return v.e;
 }
 static z3::expr toBool(const Val &v)
@@ -126,6 +133,41 @@ static z3::expr toFP(const Val &v, unsigned w)
     if (v.isS() && v.e.get_sort().is_fpa())
         return v.e;
     return fpFromBV(toBV(v, w));
+}
+static bool isRealV(const Val &v)
+{
+    return v.isS() && v.e.get_sort().is_real();
+}
+static bool g_arithUsed = false, g_realUsed = false, g_fpUsed = false; // theories used on this path (selects the fallback solver)
+static bool g_realMode = false; // harness selected the real abstraction of floating point (D6)
+static z3::expr realOfDouble(double d)
+{
+    if (std::isnan(d) || std::isinf(d))
+        throw PathEnd{"inconclusive", "non-finite double in real mode"};
+    mpq_class q(d);
+    return Z.real_val(q.get_str().c_str());
+}
+static z3::expr toRealE(const Val &v, unsigned w)
+{
+    if (v.isS()) {
+        if (v.e.get_sort().is_real())
+            return v.e;
+        if (v.e.get_sort().is_int())
+            return z3::to_real(v.e);
+        throw PathEnd{"inconclusive", "mixing ieee-symbolic and real-mode doubles"};
+    }
+    if (v.k == Val::UNDEF)
+        return Z.real_val(0);
+    if (w == 32) {
+        uint32_t u = (uint32_t)v.c.getZExtValue();
+        float f;
+        memcpy(&f, &u, 4);
+        return realOfDouble((double)f);
+    }
+    uint64_t u = v.c.getZExtValue();
+    double d;
+    memcpy(&d, &u, 8);
+    return realOfDouble(d);
 }
 static Val simp(const z3::expr &e0)
 {
@@ -155,6 +197,8 @@ struct MemObj {
         if (cells.empty()) return;
         for (auto it = cells.begin(); it != cells.end();) {
             if (it->first < off + n && it->first + it->second.n > off) {
+                if (!it->second.e.get_sort().is_bv())
+                    throw PathEnd{"inconclusive", "partial access to a real-mode double in memory"};
                 for (uint64_t i = 0; i < it->second.n; i++)
                     symb.insert_or_assign(it->first + i, it->second.e.extract(8 * i + 7, 8 * i).simplify());
                 it = cells.erase(it);
@@ -180,7 +224,7 @@ struct Frame {
 };
 
 struct Stats {
-    uint64_t instrs = 0, paths = 0, queries = 0, forks = 0, slowQueries = 0;
+    uint64_t instrs = 0, paths = 0, queries = 0, forks = 0, slowQueries = 0, asserts = 0, sat = 0, unsat = 0;
     double solver_s = 0;
     std::set<std::string> funcs;
 };
@@ -201,8 +245,17 @@ struct Engine {
     std::deque<std::vector<Dec>> work;
     z3::solver *S = nullptr;
     std::vector<z3::expr> pc;
-    std::vector<std::pair<std::string, z3::expr>> inputs;
-    std::vector<std::string> observations;
+    struct Input { std::string name, kind; z3::expr e; };
+    std::vector<Input> inputs;
+    struct Obs { std::string tag; z3::expr e; };
+    std::vector<Obs> observations;
+    struct Viol { std::string msg; std::vector<std::pair<std::string, std::string>> model; std::vector<std::string> stack; bool modelOk; };
+    std::vector<Viol> violations;
+    std::map<uint64_t, std::pair<uint64_t, uint64_t>> exnDtor;
+    std::vector<uint64_t> caught;
+    std::set<uint64_t> rethrown;
+    std::set<uint64_t> liveOSS;
+    uint64_t fakeVT = 0, errnoAddr = 0;
     Stats st;
     uint64_t instrBudget = 20000000;
     uint64_t pathInstr = 0;
@@ -211,6 +264,61 @@ struct Engine {
     uint64_t exnObj = 0, exnType = 0;
     std::set<std::string> missing;
     bool trace = false;
+    // per-path bookkeeping of the GMP model (reset for every path)
+    struct ZRec { z3::expr size, mag, val; };
+    std::map<uint64_t, ZRec> zrec;
+    struct Bnd { z3::expr v; mpz_class lo, hi; };
+    std::map<unsigned, Bnd> bounds; // ast id of Int const -> [lo,hi]
+    // harness parameters and known-finding keys
+    std::map<std::string, int64_t> params;
+    std::set<std::string> knownKeys;
+    std::vector<std::string> knownHit; // keys whose excluded region produced a violation on this path
+    std::string knownCtx;              // non-empty while executing inside a known-finding region
+    std::vector<std::string> notes;
+    uint64_t allocCap = 1ULL << 26;
+    bool checkLeaks = false;
+    uint64_t freshId = 0;
+    std::map<std::string, z3::func_decl> ufs;
+    z3::expr uf(const std::string &name, const std::vector<z3::expr> &args)
+    {
+        std::string key = name + "/" + std::to_string(args.size());
+        auto it = ufs.find(key);
+        if (it == ufs.end()) {
+            z3::sort_vector dom(Z);
+            for (size_t i = 0; i < args.size(); i++)
+                dom.push_back(Z.real_sort());
+            it = ufs.emplace(key, Z.function(name.c_str(), dom, Z.real_sort())).first;
+        }
+        z3::expr_vector av(Z);
+        for (auto &a : args)
+            av.push_back(a);
+        return it->second(av);
+    }
+    Val realSqrt(const z3::expr &x)
+    {
+        z3::expr s = uf("SQRT", {x});
+        addPC(z3::implies(x >= 0, s * s == x && s >= 0));
+        return Val::sym(s);
+    }
+    void resetPath()
+    {
+        g_arithUsed = g_realUsed = g_fpUsed = false;
+        violations.clear();
+        exnDtor.clear();
+        caught.clear();
+        rethrown.clear();
+        liveOSS.clear();
+        zrec.clear();
+        bounds.clear();
+        knownHit.clear();
+        knownCtx.clear();
+        notes.clear();
+        freshId = 0;
+    }
+    std::string fresh(const char *pfx)
+    {
+        return std::string(pfx) + "!" + std::to_string(freshId++);
+    }
 
     //---------------------------------------------------------- memory ops
     uint64_t alloc(uint64_t size, int region, const std::string &name = "")
@@ -362,6 +470,11 @@ struct Engine {
             auto c = o->cells.find(off);
             if (c != o->cells.end() && c->second.n == n) {
                 z3::expr e = c->second.e;
+                if (!e.get_sort().is_bv()) {
+                    if (!ty->isFloatingPointTy())
+                        throw PathEnd{"inconclusive", "integer load of a real-mode double"};
+                    return Val::sym(e);
+                }
                 if (bits < n * 8)
                     e = e.extract(bits - 1, 0);
                 Val r = bits < n * 8 ? simp(e) : Val::sym(e);
@@ -443,6 +556,10 @@ struct Engine {
             return;
         }
         unsigned bits = DL->getTypeSizeInBits(ty);
+        if (v.e.get_sort().is_real()) {
+            o->cells.insert_or_assign(off, MemObj::Cell{v.e, n});
+            return;
+        }
         z3::expr bv = toBV(v, bits);
         if (bits < n * 8)
             bv = z3::zext(bv, n * 8 - bits);
@@ -482,7 +599,9 @@ struct Engine {
                 FILE *f = fopen(fn.c_str(), "w");
                 if (f) { fputs(S->to_smt2().c_str(), f); fclose(f); }
             }
-            z3::solver T = z3::tactic(Z, "qfnia").mk_solver();
+            z3::solver T = z3::tactic(Z, g_arithUsed ? "qfnia" : "qfbv").mk_solver();
+            if (g_realUsed || (!g_arithUsed && g_fpUsed))
+                T = z3::solver(Z);
             z3::params pr(Z);
             pr.set("timeout", (unsigned)slowTimeout);
             T.set(pr);
@@ -491,7 +610,7 @@ struct Engine {
             r = T.check();
             if (r == z3::sat && wantModel)
                 mdl.reset(new z3::model(T.get_model()));
-            if (r == z3::unknown) {
+            if (r == z3::unknown && getenv("SYMX_DUMP_SLOW")) {
                 static int dumpn = 0;
                 std::string fn = "unknown_" + std::to_string(dumpn++) + ".smt2";
                 FILE *f = fopen(fn.c_str(), "w");
@@ -502,6 +621,7 @@ struct Engine {
             }
         }
         S->pop();
+        if (r == z3::sat) st.sat++; else if (r == z3::unsat) st.unsat++;
         double dt = std::chrono::duration<double>(std::chrono::steady_clock::now() - t0).count();
         st.solver_s += dt;
         if (getenv("SYMX_QLOG") && dt > 0.3)
@@ -570,9 +690,12 @@ struct Engine {
     }
     // replay-safe concretisation: the decision log stores the candidate value, so that a
     // re-execution tests the same value even if the solver's model differs.
-    std::string concretizeExpr(const z3::expr &e, const char *what)
+    uint64_t concCap = 256;
+    std::string concretizeExpr(const z3::expr &e, const char *what, uint64_t cap = 0)
     {
-        for (int n = 0; n < 256; n++) {
+        if (!cap)
+            cap = concCap;
+        for (uint64_t n = 0; n < cap; n++) {
             size_t i = decisions.size();
             std::string cand;
             bool take;
@@ -609,6 +732,120 @@ struct Engine {
             }
         }
         throw PathEnd{"inconclusive", std::string("too many feasible values for ") + what};
+    }
+    uint64_t enumerate(const z3::expr &v, uint64_t n, const char *what)
+    {
+        return mpz_class(concretizeExpr(v, what, n + 1)).get_ui();
+    }
+    // model values of the inputs under the current solver state
+    std::vector<std::pair<std::string, std::string>> inputModel(bool &ok)
+    {
+        std::vector<std::pair<std::string, std::string>> r;
+        ok = false;
+        try {
+            mdl.reset();
+            ensureModel();
+        } catch (...) {
+            return r;
+        }
+        ok = true;
+        for (auto &in : inputs) {
+            z3::expr v = mdl->eval(in.e, true);
+            std::string sv;
+            if (v.is_numeral()) {
+                if (v.get_sort().is_real()) {
+                    sv = v.numerator().get_decimal_string(0) + "/" + v.denominator().get_decimal_string(0);
+                } else
+                    sv = v.get_decimal_string(0);
+            } else
+                sv = v.to_string();
+            r.emplace_back(in.kind + ":" + in.name, sv);
+        }
+        return r;
+    }
+    void violation(const std::string &msg)
+    {
+        if (!knownCtx.empty()) {
+            knownHit.push_back(knownCtx);
+            return;
+        }
+        Viol v;
+        v.msg = msg;
+        v.model = inputModel(v.modelOk);
+        for (auto &f : stack)
+            v.stack.push_back(demangle(f.f->getName().str()));
+        violations.push_back(std::move(v));
+    }
+    std::string readCStrSym(uint64_t addr)
+    {
+        std::string s;
+        Type *i8 = Type::getInt8Ty(M->getContext());
+        for (;;) {
+            Val x = load(addr++, i8);
+            if (x.isC()) {
+                if (!x.u())
+                    break;
+                s.push_back((char)x.u());
+            } else {
+                if (decide(toBV(x, 8) == Z.bv_val(0, 8)))
+                    break;
+                s.push_back('?');
+            }
+        }
+        return s;
+    }
+    // std exception support: typeinfo objects and vtables of libstdc++ classes are external; build stand-ins
+    std::map<std::string, uint64_t> stdTI, stdVT;
+    uint64_t stdTypeInfo(const std::string &name)
+    {
+        auto it = stdTI.find(name);
+        if (it != stdTI.end())
+            return it->second;
+        if (GlobalVariable *g = M->getGlobalVariable(name))
+            return stdTI[name] = addrOf(g);
+        throw PathEnd{"inconclusive", "no typeinfo stand-in for " + name};
+    }
+    uint64_t stdVtable(const std::string &name)
+    {
+        auto it = stdVT.find(name);
+        if (it != stdVT.end())
+            return it->second;
+        throw PathEnd{"inconclusive", "no vtable stand-in for " + name};
+    }
+    void stdExcInit(uint64_t o, const std::string &tiName, uint64_t msg)
+    {
+        std::string m = msg ? readCStrSym(msg) : std::string("std exception");
+        uint64_t b = alloc(m.size() + 1, 2, "what");
+        writeBytes(b, m.c_str(), m.size() + 1);
+        wr64(o, stdVtable("_ZTVSt13runtime_error"));
+        wr64(o + 8, b);
+    }
+    bool derives(uint64_t t, uint64_t c, int64_t &off, int depth)
+    {
+        if (t == c) {
+            off = 0;
+            return true;
+        }
+        if (depth > 12 || !t)
+            return false;
+        GlobalVariable *si = M->getGlobalVariable("_ZTVN10__cxxabiv120__si_class_type_infoE");
+        GlobalVariable *vmi = M->getGlobalVariable("_ZTVN10__cxxabiv121__vmi_class_type_infoE");
+        uint64_t vp = rd64(t);
+        if (si && vp == addrOf(si) + 16)
+            return derives(rd64(t + 16), c, off, depth + 1);
+        if (vmi && vp == addrOf(vmi) + 16) {
+            uint32_t n = rd32(t + 20);
+            for (uint32_t i = 0; i < n; i++) {
+                uint64_t bt = rd64(t + 24 + 16 * i);
+                int64_t fl = (int64_t)rd64(t + 32 + 16 * i);
+                int64_t o2;
+                if (derives(bt, c, o2, depth + 1)) {
+                    off = (fl >> 8) + o2;
+                    return true;
+                }
+            }
+        }
+        return false;
     }
     uint64_t concretize(const Val &v, unsigned w, const char *what)
     {
@@ -981,6 +1218,21 @@ struct Engine {
             }
             return Val::conc(1, r);
         }
+        if (isRealV(a) || isRealV(b)) {
+            z3::expr x = toRealE(a, w), y = toRealE(b, w);
+            switch (p) {
+                case CmpInst::FCMP_OEQ: case CmpInst::FCMP_UEQ: return simp(x == y);
+                case CmpInst::FCMP_ONE: case CmpInst::FCMP_UNE: return simp(x != y);
+                case CmpInst::FCMP_OGT: case CmpInst::FCMP_UGT: return simp(x > y);
+                case CmpInst::FCMP_OGE: case CmpInst::FCMP_UGE: return simp(x >= y);
+                case CmpInst::FCMP_OLT: case CmpInst::FCMP_ULT: return simp(x < y);
+                case CmpInst::FCMP_OLE: case CmpInst::FCMP_ULE: return simp(x <= y);
+                case CmpInst::FCMP_ORD: return Val::conc(1, 1);
+                case CmpInst::FCMP_UNO: return Val::conc(1, 0);
+                default: break;
+            }
+            throw PathEnd{"inconclusive", "fcmp(real)"};
+        }
         z3::expr x = toFP(a, w), y = toFP(b, w);
         z3::expr un = x.mk_is_nan() || y.mk_is_nan();
         switch (p) {
@@ -1013,6 +1265,35 @@ struct Engine {
                 case Instruction::FDiv: return dToVal(x / y);
                 case Instruction::FRem: return dToVal(std::fmod(x, y));
             }
+        }
+        if (isRealV(a) || isRealV(b)) {
+            z3::expr x = toRealE(a, w), y = toRealE(b, w);
+            switch (opc) {
+                case Instruction::FAdd: return Val::sym((x + y).simplify());
+                case Instruction::FSub: return Val::sym((x - y).simplify());
+                case Instruction::FMul: return Val::sym((x * y).simplify());
+                case Instruction::FDiv: {
+                    if (!b.isC() && decide(y == 0))
+                        throw PathEnd{"inconclusive", "real-mode division by zero"};
+                    if (b.isC() && bitsToD(b.c) == 0.0)
+                        throw PathEnd{"inconclusive", "real-mode division by zero"};
+                    return Val::sym((x / y).simplify());
+                }
+            }
+            throw PathEnd{"inconclusive", "fbin(real)"};
+        }
+        if (a.isC() && b.isC() && w == 32) {
+            auto f = [](const APInt &q) { uint32_t u = (uint32_t)q.getZExtValue(); float r; memcpy(&r, &u, 4); return r; };
+            float x = f(a.c), y = f(b.c), r;
+            switch (opc) {
+                case Instruction::FAdd: r = x + y; break;
+                case Instruction::FSub: r = x - y; break;
+                case Instruction::FMul: r = x * y; break;
+                case Instruction::FDiv: r = x / y; break;
+                default: r = std::fmod(x, y);
+            }
+            uint32_t u; memcpy(&u, &r, 4);
+            return Val::conc(32, u);
         }
         if (w != 64)
             throw PathEnd{"inconclusive", "non-double fp op"};
@@ -1055,6 +1336,14 @@ struct Engine {
     {
         if (c == 0)
             return true; // catch (...)
+        {
+            int64_t off;
+            try {
+                if (derives(t, c, off, 0))
+                    return true;
+            } catch (PathEnd &) {
+            }
+        }
         for (int depth = 0; depth < 16 && t; depth++) {
             if (t == c)
                 return true;
@@ -1219,6 +1508,8 @@ struct Engine {
                 Type *dt = I->getType(), *stp = I->getOperand(0)->getType();
                 if (v.isS() && dt->isIntegerTy() && stp->isFloatingPointTy())
                     v = Val::sym(toBV(v, DL->getTypeSizeInBits(dt)));
+                if (v.isC() && dt->isVectorTy())
+                    throw PathEnd{"inconclusive", "vector bitcast"};
                 F.regs[I] = v;
                 break;
             }
@@ -1272,6 +1563,8 @@ struct Engine {
                 unsigned w = DL->getTypeSizeInBits(I->getType());
                 if (v.isC())
                     F.regs[I] = Val::conc(v.c ^ APInt::getSignMask(w));
+                else if (isRealV(v))
+                    F.regs[I] = Val::sym((-v.e).simplify());
                 else
                     F.regs[I] = simp(toBV(v, w) ^ bvval(APInt::getSignMask(w)));
                 break;
@@ -1297,6 +1590,11 @@ struct Engine {
                 if (v.isC()) {
                     double d = sg ? (double)v.c.getSExtValue() : (double)v.c.getZExtValue();
                     F.regs[I] = dToVal(d);
+                } else if (v.isS() && v.e.get_sort().is_int()) {
+                    F.regs[I] = Val::sym(z3::to_real(v.e));
+                } else if (g_realMode) {
+                    z3::expr bv = toBV(v, sw);
+                    F.regs[I] = Val::sym(z3::to_real(z3::expr(Z, Z3_mk_bv2int(Z, bv, sg))));
                 } else {
                     z3::expr bv = toBV(v, sw);
                     z3::sort ds = Z.fpa_sort(11, 53);
@@ -1312,6 +1610,11 @@ struct Engine {
                 if (v.isC()) {
                     double d = bitsToD(v.c);
                     F.regs[I] = sg ? Val::conc(dw, (uint64_t)(int64_t)d, true) : Val::conc(dw, (uint64_t)d);
+                } else if (isRealV(v)) {
+                    z3::expr fl(Z, Z3_mk_real2int(Z, v.e));
+                    z3::expr ng(Z, Z3_mk_real2int(Z, -v.e));
+                    z3::expr t = z3::ite(v.e >= 0, fl, -ng);
+                    F.regs[I] = Val::sym(z3::int2bv(dw, t));
                 } else {
                     z3::expr f = toFP(v, 64);
                     z3::expr rtz(Z, Z3_mk_fpa_rtz(Z));
@@ -1322,6 +1625,10 @@ struct Engine {
             }
             case Instruction::FPExt: case Instruction::FPTrunc: {
                 Val v = get(I->getOperand(0));
+                if (isRealV(v)) {
+                    F.regs[I] = v; // real abstraction: no rounding
+                    break;
+                }
                 if (!v.isC())
                     throw PathEnd{"inconclusive", "symbolic fpext"};
                 if (I->getOpcode() == Instruction::FPExt && I->getOperand(0)->getType()->isFloatTy() && I->getType()->isDoubleTy()) {
@@ -1351,6 +1658,8 @@ struct Engine {
                         unsigned w = DL->getTypeSizeInBits(ty);
                         if (w == 1)
                             F.regs[I] = simp(z3::ite(toBool(c), toBool(a), toBool(b)));
+                        else if (isRealV(a) || isRealV(b))
+                            F.regs[I] = Val::sym(z3::ite(toBool(c), toRealE(a, w), toRealE(b, w)));
                         else if ((a.isS() && a.e.get_sort().is_fpa()) || (b.isS() && b.e.get_sort().is_fpa()))
                             F.regs[I] = Val::sym(z3::ite(toBool(c), toFP(a, w), toFP(b, w)));
                         else
@@ -1554,6 +1863,8 @@ struct Engine {
                 unsigned w = DL->getTypeSizeInBits(ii->getType());
                 if (v.isC())
                     return done(Val::conc(v.c & ~APInt::getSignMask(w)));
+                if (isRealV(v))
+                    return done(Val::sym(z3::ite(v.e >= 0, v.e, -v.e)));
                 return done(simp(toBV(v, w) & bvval(~APInt::getSignMask(w))));
             }
             case Intrinsic::floor: case Intrinsic::ceil: case Intrinsic::trunc: case Intrinsic::sqrt: {
@@ -1567,6 +1878,16 @@ struct Engine {
                         default: d = std::sqrt(d);
                     }
                     return done(dToVal(d));
+                }
+                if (isRealV(v)) {
+                    z3::expr fl = z3::to_real(z3::expr(Z, Z3_mk_real2int(Z, v.e)));
+                    z3::expr ce = -z3::to_real(z3::expr(Z, Z3_mk_real2int(Z, -v.e)));
+                    switch (ii->getIntrinsicID()) {
+                        case Intrinsic::floor: return done(Val::sym(fl));
+                        case Intrinsic::ceil: return done(Val::sym(ce));
+                        case Intrinsic::trunc: return done(Val::sym(z3::ite(v.e >= 0, fl, ce)));
+                        default: return done(realSqrt(v.e));
+                    }
                 }
                 z3::expr f = toFP(v, 64);
                 Z3_ast rm = ii->getIntrinsicID() == Intrinsic::floor ? Z3_mk_fpa_rtn(Z) : ii->getIntrinsicID() == Intrinsic::ceil ? Z3_mk_fpa_rtp(Z) : Z3_mk_fpa_rtz(Z);
@@ -1730,45 +2051,460 @@ struct Engine {
     }
 };
 
-#include "natives.inc"
+#include "natives_core.inc"
+#include "natives_gmp.inc"
+#include "natives_stream.inc"
+
+static void registerNatives(Engine &E)
+{
+    LLVMContext &C = E.M->getContext();
+    // declarations whose addresses are needed for stand-in vtables
+    for (const char *n : {"_ZNSt13runtime_errorD1Ev", "_ZNSt13runtime_errorD0Ev", "_ZNKSt13runtime_error4whatEv"})
+        E.M->getOrInsertFunction(n, Type::getInt8PtrTy(C), Type::getInt8PtrTy(C));
+    registerCore(E);
+    registerGMP(E);
+    registerStreams(E);
+}
+
+static void initExternGlobals(Engine &E)
+{
+    struct { const char *name; uint64_t vboff; int n; } vtts[] = {
+        {"_ZTTNSt7__cxx1119basic_ostringstreamIcSt11char_traitsIcESaIcEEE", 112, 4},
+        {"_ZTTNSt7__cxx1119basic_istringstreamIcSt11char_traitsIcESaIcEEE", 120, 4},
+        {"_ZTTNSt7__cxx1118basic_stringstreamIcSt11char_traitsIcESaIcEEE", 128, 10},
+    };
+    for (auto &v : vtts) {
+        GlobalVariable *g = E.M->getGlobalVariable(v.name);
+        if (!g)
+            continue;
+        uint64_t a = E.addrOf(g);
+        uint64_t vt = E.alloc(64, 0, std::string("fake vtable for ") + v.name);
+        E.wr64(vt, v.vboff);
+        for (int i = 0; i < v.n; i++)
+            E.wr64(a + 8 * i, vt + 24);
+    }
+    E.fakeVT = E.alloc(64, 0, "fake ostringstream vtable");
+    E.wr64(E.fakeVT, 112);
+    E.errnoAddr = E.alloc(4, 0, "errno");
+    if (GlobalVariable *g = E.M->getGlobalVariable("__libc_single_threaded")) {
+        uint8_t one = 1;
+        E.writeBytes(E.addrOf(g), &one, 1);
+    }
+    // typeinfo stand-ins for libstdc++ exception classes
+    struct { const char *ti, *nm, *base; } tis[] = {
+        {"_ZTISt9exception", "St9exception", nullptr},
+        {"_ZTISt13runtime_error", "St13runtime_error", "_ZTISt9exception"},
+        {"_ZTISt11logic_error", "St11logic_error", "_ZTISt9exception"},
+        {"_ZTISt14overflow_error", "St14overflow_error", "_ZTISt13runtime_error"},
+        {"_ZTISt16invalid_argument", "St16invalid_argument", "_ZTISt11logic_error"},
+        {"_ZTISt12length_error", "St12length_error", "_ZTISt11logic_error"},
+        {"_ZTISt12out_of_range", "St12out_of_range", "_ZTISt11logic_error"},
+        {"_ZTISt12domain_error", "St12domain_error", "_ZTISt11logic_error"},
+        {"_ZTISt8bad_cast", "St8bad_cast", "_ZTISt9exception"},
+        {"_ZTISt9bad_alloc", "St9bad_alloc", "_ZTISt9exception"},
+        {"_ZTISt17bad_function_call", "St17bad_function_call", "_ZTISt9exception"},
+    };
+    GlobalVariable *si = E.M->getGlobalVariable("_ZTVN10__cxxabiv120__si_class_type_infoE");
+    GlobalVariable *ci = E.M->getGlobalVariable("_ZTVN10__cxxabiv117__class_type_infoE");
+    uint64_t siV = si ? E.addrOf(si) + 16 : 0, ciV = ci ? E.addrOf(ci) + 16 : 0;
+    for (auto &t : tis) {
+        GlobalVariable *g = E.M->getGlobalVariable(t.ti);
+        uint64_t a = g ? E.addrOf(g) : E.alloc(24, 0, t.ti);
+        E.stdTI[t.ti] = a;
+    }
+    for (auto &t : tis) {
+        uint64_t a = E.stdTI[t.ti];
+        uint64_t nm = E.alloc(strlen(t.nm) + 1, 0, "typeinfo name");
+        E.writeBytes(nm, t.nm, strlen(t.nm) + 1);
+        E.wr64(a, t.base ? siV : ciV);
+        E.wr64(a + 8, nm);
+        if (t.base)
+            E.wr64(a + 16, E.stdTI[t.base]);
+    }
+    // vtable stand-in shared by the std exception objects the natives create
+    {
+        uint64_t vt = E.alloc(40, 0, "vtable stand-in std::runtime_error");
+        E.wr64(vt, 0);
+        E.wr64(vt + 8, E.stdTI["_ZTISt13runtime_error"]);
+        E.wr64(vt + 16, E.gaddr[E.M->getFunction("_ZNSt13runtime_errorD1Ev")]);
+        E.wr64(vt + 24, E.gaddr[E.M->getFunction("_ZNSt13runtime_errorD0Ev")]);
+        E.wr64(vt + 32, E.gaddr[E.M->getFunction("_ZNKSt13runtime_error4whatEv")]);
+        E.stdVT["_ZTVSt13runtime_error"] = vt + 16;
+        if (GlobalVariable *g = E.M->getGlobalVariable("_ZTVSt13runtime_error")) {
+            uint64_t a = E.addrOf(g);
+            for (int i = 0; i < 5; i++)
+                E.wr64(a + 8 * i, E.rd64(vt + 8 * i));
+        }
+    }
+}
+
+//------------------------------------------------------------------ JSON helpers
+static std::string jstr(const std::string &s)
+{
+    std::string r = "\"";
+    for (unsigned char c : s) {
+        if (c == '"' || c == '\\') {
+            r += '\\';
+            r += (char)c;
+        } else if (c == '\n')
+            r += "\\n";
+        else if (c < 0x20 || c >= 0x7f) {
+            char b[8];
+            snprintf(b, sizeof b, "\\u%04x", c);
+            r += b;
+        } else
+            r += (char)c;
+    }
+    return r + "\"";
+}
+
+//------------------------------------------------------------------ prefix (de)serialisation
+static std::string encPrefix(const std::vector<Engine::Dec> &d)
+{
+    std::string s;
+    for (auto &x : d) {
+        if (!s.empty())
+            s += ',';
+        s += x.b ? '1' : '0';
+        if (!x.val.empty()) {
+            s += '=';
+            s += x.val;
+        }
+    }
+    return s;
+}
+static std::vector<Engine::Dec> decPrefix(const std::string &s)
+{
+    std::vector<Engine::Dec> d;
+    size_t i = 0;
+    while (i < s.size()) {
+        size_t j = s.find(',', i);
+        if (j == std::string::npos)
+            j = s.size();
+        std::string t = s.substr(i, j - i);
+        Engine::Dec x{t[0] == '1', ""};
+        if (t.size() > 2 && t[1] == '=')
+            x.val = t.substr(2);
+        d.push_back(x);
+        i = j + 1;
+    }
+    return d;
+}
+
+struct RunCfg {
+    Function *H = nullptr;
+    uint64_t sG = 0, sS = 0, sH = 0;
+};
+
+// conservative reachability scan (LeakSanitizer style): heap objects allocated after the snapshot, not freed and not reachable
+// from globals or other reachable heap objects are leaks
+static std::string leakCheck(Engine &E, uint64_t heapStart)
+{
+    std::set<uint64_t> reached;
+    std::vector<uint64_t> todo;
+    auto scan = [&](const MemObj &o) {
+        for (uint64_t off = 0; off + 8 <= o.size; off += 8) {
+            uint64_t v;
+            memcpy(&v, &o.data[off], 8);
+            if (v < heapStart)
+                continue;
+            auto it = E.objs.upper_bound(v);
+            if (it == E.objs.begin())
+                continue;
+            --it;
+            MemObj &t = *it->second;
+            if (!t.heap || t.freed || v > t.base + t.size)
+                continue;
+            if (reached.insert(t.base).second)
+                todo.push_back(t.base);
+        }
+    };
+    for (auto &kv : E.objs)
+        if (!kv.second->heap)
+            scan(*kv.second);
+        else if (kv.second->base < heapStart && !kv.second->freed)
+            scan(*kv.second);
+    while (!todo.empty()) {
+        uint64_t b = todo.back();
+        todo.pop_back();
+        scan(*E.objs[b]);
+    }
+    unsigned n = 0;
+    uint64_t bytes = 0;
+    std::string first;
+    for (auto &kv : E.objs) {
+        MemObj &o = *kv.second;
+        if (o.heap && !o.freed && o.base >= heapStart && !reached.count(o.base)) {
+            n++;
+            bytes += o.size;
+            if (first.empty())
+                first = o.name + "(" + std::to_string(o.size) + " bytes)";
+        }
+    }
+    if (!n)
+        return "";
+    return std::to_string(n) + " heap object(s), " + std::to_string(bytes) + " bytes leaked, first: " + first;
+}
+
+// run one path; returns a JSON object describing it; new work items are appended to E.work
+static std::string runPath(Engine &E, const RunCfg &rc, const std::vector<Engine::Dec> &prefix, bool wantModel)
+{
+    E.prefix = prefix;
+    E.decisions.clear();
+    E.pc.clear();
+    E.inputs.clear();
+    E.observations.clear();
+    E.objs = E.snapshot;
+    E.nextGlobal = rc.sG;
+    E.nextStack = rc.sS;
+    E.nextHeap = rc.sH;
+    E.stack.clear();
+    E.pathInstr = 0;
+    E.unwinding = false;
+    E.mdl.reset();
+    E.subF.reset();
+    E.subT.reset();
+    E.resetPath();
+    g_realMode = false;
+    g_bvInts = false;
+    E.checkLeaks = false;
+    z3::solver S(Z);
+    {
+        z3::params pr(Z);
+        pr.set("timeout", (unsigned)E.fastTimeout);
+        S.set(pr);
+    }
+    E.S = &S;
+    uint64_t q0 = E.st.queries;
+    double s0 = E.st.solver_s;
+    PathEnd end{"ok", ""};
+    try {
+        E.runFunction(rc.H, {});
+        if (E.checkLeaks) {
+            std::string l = leakCheck(E, rc.sH);
+            if (!l.empty())
+                E.violation("memory leak: " + l);
+        }
+    } catch (PathEnd &p) {
+        end = p;
+    } catch (z3::exception &ex) {
+        end = PathEnd{"inconclusive", std::string("z3: ") + ex.msg()};
+    }
+    try {
+        if (end.kind == "violation") {
+            E.violation(end.msg);
+            end.kind = "ok";
+        } else if (end.kind == "throw") {
+            E.violation("uncaught exception " + end.msg);
+            end.kind = "ok";
+        }
+    } catch (...) {
+    }
+    E.st.paths++;
+    std::ostringstream js;
+    std::string kind = end.kind;
+    if (!E.violations.empty())
+        kind = "violation";
+    else if (kind == "ok" && !E.knownHit.empty())
+        kind = "known";
+    js << "{\"kind\":" << jstr(kind) << ",\"msg\":" << jstr(end.msg) << ",\"decisions\":" << E.decisions.size() << ",\"instrs\":" << E.pathInstr
+       << ",\"queries\":" << (E.st.queries - q0) << ",\"solver_s\":" << (E.st.solver_s - s0) << ",\"prefix\":" << jstr(encPrefix(E.decisions));
+    js << ",\"violations\":[";
+    for (size_t i = 0; i < E.violations.size(); i++) {
+        auto &v = E.violations[i];
+        js << (i ? "," : "") << "{\"msg\":" << jstr(v.msg) << ",\"model_ok\":" << (v.modelOk ? "true" : "false") << ",\"model\":{";
+        for (size_t k = 0; k < v.model.size(); k++)
+            js << (k ? "," : "") << jstr(v.model[k].first) << ":" << jstr(v.model[k].second);
+        js << "},\"stack\":[";
+        for (size_t k = 0; k < v.stack.size() && k < 12; k++)
+            js << (k ? "," : "") << jstr(v.stack[v.stack.size() - 1 - k]);
+        js << "]}";
+    }
+    js << "],\"known\":[";
+    for (size_t i = 0; i < E.knownHit.size(); i++)
+        js << (i ? "," : "") << jstr(E.knownHit[i]);
+    js << "],\"notes\":[";
+    for (size_t i = 0; i < E.notes.size(); i++)
+        js << (i ? "," : "") << jstr(E.notes[i]);
+    js << "]";
+    if (wantModel && (kind == "ok" || kind == "known")) {
+        bool ok = false;
+        std::vector<std::pair<std::string, std::string>> m;
+        try {
+            m = E.inputModel(ok);
+        } catch (...) {
+        }
+        if (ok) {
+            js << ",\"model\":{";
+            for (size_t k = 0; k < m.size(); k++)
+                js << (k ? "," : "") << jstr(m[k].first) << ":" << jstr(m[k].second);
+            js << "},\"obs\":[";
+            for (size_t k = 0; k < E.observations.size(); k++) {
+                std::string sv = "?";
+                try {
+                    z3::expr v = E.mdl->eval(E.observations[k].e, true);
+                    if (v.is_numeral()) {
+                        mpz_class c(v.get_decimal_string(0));
+                        if (v.get_sort().is_bv() && v.get_sort().bv_size() == 64 && c >= mpz_class("9223372036854775808"))
+                            c -= mpz_class("18446744073709551616");
+                        sv = c.get_str();
+                    }
+                } catch (...) {
+                }
+                js << (k ? "," : "") << "[" << jstr(E.observations[k].tag) << "," << jstr(sv) << "]";
+            }
+            js << "],\"pc_size\":" << E.pc.size();
+        }
+    }
+    js << "}";
+    // release z3 objects tied to the solver before it goes out of scope
+    E.mdl.reset();
+    E.inputs.clear();
+    E.observations.clear();
+    E.pc.clear();
+    E.resetPath();
+    E.objs.clear();
+    E.S = nullptr;
+    return js.str();
+}
+
+static std::string statsJson(Engine &E)
+{
+    std::ostringstream js;
+    js << "{\"instrs\":" << E.st.instrs << ",\"paths\":" << E.st.paths << ",\"queries\":" << E.st.queries << ",\"forks\":" << E.st.forks
+       << ",\"slow\":" << E.st.slowQueries << ",\"asserts\":" << E.st.asserts << ",\"sat\":" << E.st.sat << ",\"unsat\":" << E.st.unsat
+       << ",\"solver_s\":" << E.st.solver_s << ",\"funcs\":[";
+    bool first = true;
+    for (auto &f : E.st.funcs) {
+        js << (first ? "" : ",") << jstr(f);
+        first = false;
+    }
+    js << "],\"missing\":[";
+    first = true;
+    for (auto &f : E.missing) {
+        js << (first ? "" : ",") << jstr(f);
+        first = false;
+    }
+    js << "]}";
+    return js.str();
+}
+
+static bool readLine(int fd, std::string &buf, std::string &line)
+{
+    for (;;) {
+        size_t nl = buf.find('\n');
+        if (nl != std::string::npos) {
+            line = buf.substr(0, nl);
+            buf.erase(0, nl + 1);
+            return true;
+        }
+        char tmp[65536];
+        ssize_t n = read(fd, tmp, sizeof tmp);
+        if (n <= 0)
+            return false;
+        buf.append(tmp, (size_t)n);
+    }
+}
+static void writeAll(int fd, const std::string &s)
+{
+    size_t off = 0;
+    while (off < s.size()) {
+        ssize_t n = write(fd, s.data() + off, s.size() - off);
+        if (n <= 0)
+            return;
+        off += (size_t)n;
+    }
+}
+
+static void workerLoop(Engine &E, const RunCfg &rc, int in, int out)
+{
+    std::string buf, line;
+    while (readLine(in, buf, line)) {
+        if (line == "Q")
+            break;
+        // "P <wantModel> <prefix>"
+        bool wm = line.size() > 2 && line[2] == '1';
+        std::string pfx = line.size() > 4 ? line.substr(4) : "";
+        E.work.clear();
+        std::string res = runPath(E, rc, decPrefix(pfx), wm);
+        std::string msg;
+        for (auto &w : E.work)
+            msg += "F " + encPrefix(w) + "\n";
+        msg += "R " + res + "\n";
+        writeAll(out, msg);
+    }
+    writeAll(out, "S " + statsJson(E) + "\n");
+}
 
 int main(int argc, char **argv)
 {
-    if (argc < 3) {
-        std::cerr << "usage: symx module.bc harness_fn [--trace]\n";
+    std::string modPath, entry, outPath;
+    std::vector<std::string> links;
+    int jobs = 1;
+    uint64_t maxPaths = 1000000, sampleModels = 8;
+    double wallS = 1e9;
+    Engine E;
+    for (int i = 1; i < argc; i++) {
+        std::string a = argv[i];
+        auto next = [&]() { return std::string(i + 1 < argc ? argv[++i] : ""); };
+        if (a == "--module") modPath = next();
+        else if (a == "--link") links.push_back(next());
+        else if (a == "--entry") entry = next();
+        else if (a == "--out") outPath = next();
+        else if (a == "--jobs") jobs = atoi(next().c_str());
+        else if (a == "--max-paths") maxPaths = strtoull(next().c_str(), nullptr, 10);
+        else if (a == "--wall-s") wallS = atof(next().c_str());
+        else if (a == "--instr-budget") E.instrBudget = strtoull(next().c_str(), nullptr, 10);
+        else if (a == "--fast-ms") E.fastTimeout = strtoull(next().c_str(), nullptr, 10);
+        else if (a == "--slow-ms") E.slowTimeout = strtoull(next().c_str(), nullptr, 10);
+        else if (a == "--conc-cap") E.concCap = strtoull(next().c_str(), nullptr, 10);
+        else if (a == "--alloc-cap") E.allocCap = strtoull(next().c_str(), nullptr, 10);
+        else if (a == "--sample-models") sampleModels = strtoull(next().c_str(), nullptr, 10);
+        else if (a == "--trace") E.trace = true;
+        else if (a == "--known") {
+            std::string k = next();
+            size_t p = 0;
+            while (p <= k.size()) {
+                size_t q = k.find(',', p);
+                if (q == std::string::npos) q = k.size();
+                if (q > p) E.knownKeys.insert(k.substr(p, q - p));
+                p = q + 1;
+            }
+        } else if (a == "--param") {
+            std::string k = next();
+            size_t eq = k.find('=');
+            if (eq != std::string::npos) E.params[k.substr(0, eq)] = strtoll(k.c_str() + eq + 1, nullptr, 10);
+        } else {
+            std::cerr << "symx: unknown option " << a << "\n";
+            return 2;
+        }
+    }
+    if (modPath.empty() || entry.empty()) {
+        std::cerr << "usage: symx --module lib.bc [--link x.bc]... --entry harness_fn [--jobs N] [--out result.json] [--known k1,k2] [--param k=v]\n";
         return 2;
     }
     LLVMContext ctx;
     SMDiagnostic err;
     auto t0 = std::chrono::steady_clock::now();
-    auto M = parseIRFile(argv[1], err, ctx);
+    auto M = parseIRFile(modPath, err, ctx);
     if (!M) {
         err.print("symx", errs());
         return 2;
     }
-    for (int i = 3; i < argc; i++) {
-        std::string a = argv[i];
-        if (a.size() > 3 && a.substr(a.size() - 3) == ".bc") {
-            auto M2 = parseIRFile(a, err, ctx);
-            if (!M2) {
-                err.print("symx", errs());
-                return 2;
-            }
-            if (Linker::linkModules(*M, std::move(M2))) {
-                std::cerr << "link failed\n";
-                return 2;
-            }
+    for (auto &l : links) {
+        auto M2 = parseIRFile(l, err, ctx);
+        if (!M2) {
+            err.print("symx", errs());
+            return 2;
+        }
+        if (Linker::linkModules(*M, std::move(M2))) {
+            std::cerr << "symx: link failed for " << l << "\n";
+            return 2;
         }
     }
     DL = &M->getDataLayout();
-    Engine E;
     E.M = M.get();
-    for (int i = 3; i < argc; i++)
-        if (std::string(argv[i]) == "--trace")
-            E.trace = true;
     registerNatives(E);
-    auto t1 = std::chrono::steady_clock::now();
-    std::cerr << "load " << std::chrono::duration<double>(t1 - t0).count() << " s\n";
     z3::solver S0(Z);
     E.S = &S0;
     try {
@@ -1779,75 +2515,178 @@ int main(int argc, char **argv)
         E.runCtors();
         E.trace = tr;
     } catch (PathEnd &p) {
-        std::cerr << "init failed: " << p.kind << " " << p.msg << "\n";
+        std::cerr << "symx: init failed: " << p.kind << " " << p.msg << "\n";
         for (auto &f : E.stack)
             std::cerr << "  in " << demangle(f.f->getName().str()) << "\n";
         return 2;
     }
-    auto t2 = std::chrono::steady_clock::now();
-    std::cerr << "init " << std::chrono::duration<double>(t2 - t1).count() << " s, instrs " << E.st.instrs << "\n";
+    E.S = nullptr;
+    auto t1 = std::chrono::steady_clock::now();
     E.snapshot = E.objs;
-    uint64_t sG = E.nextGlobal, sS = E.nextStack, sH = E.nextHeap;
-    Function *H = M->getFunction(argv[2]);
-    if (!H) {
-        std::cerr << "no harness " << argv[2] << "\n";
+    RunCfg rc;
+    rc.sG = E.nextGlobal;
+    rc.sS = E.nextStack;
+    rc.sH = E.nextHeap;
+    rc.H = M->getFunction(entry);
+    if (!rc.H) {
+        std::cerr << "symx: no harness " << entry << "\n";
         return 2;
     }
-    E.work.push_back({});
-    std::map<std::string, int> outcomes;
-    int violations = 0;
     uint64_t initInstr = E.st.instrs;
-    while (!E.work.empty()) {
-        E.prefix = E.work.back();
-        E.work.pop_back();
-        E.decisions.clear();
-        E.pc.clear();
-        E.inputs.clear();
-        E.observations.clear();
-        E.objs = E.snapshot;
-        E.nextGlobal = sG;
-        E.nextStack = sS;
-        E.nextHeap = sH;
-        E.stack.clear();
-        E.pathInstr = 0;
-        E.unwinding = false;
-        E.mdl.reset();
-        E.subF.reset();
-        E.subT.reset();
-        z3::solver S(Z);
-        { z3::params pr(Z); pr.set("timeout", (unsigned)E.fastTimeout); S.set(pr); }
-        E.S = &S;
-        PathEnd end{"ok", ""};
-        try {
-            E.runFunction(H, {});
-        } catch (PathEnd &p) {
-            end = p;
-        } catch (z3::exception &ex) {
-            end = PathEnd{"inconclusive", std::string("z3: ") + ex.msg()};
-        }
-        E.st.paths++;
-        if (E.st.paths % 100 == 0)
-            std::cerr << "progress paths " << E.st.paths << " queue " << E.work.size() << " queries " << E.st.queries << " slow " << E.st.slowQueries << " solver_s " << E.st.solver_s << " declen " << E.decisions.size() << "\n";
-        outcomes[end.kind + (end.kind == "ok" ? "" : ": " + end.msg)]++;
-        if (end.kind == "violation") {
-            violations++;
-            std::cout << "VIOLATION path " << E.st.paths << ": " << end.msg << "\n";
-            E.mdl.reset();
-            try { E.ensureModel(); } catch (...) {}
-            if (E.mdl) {
-                z3::model &m = *E.mdl;
-                for (auto &in : E.inputs)
-                    std::cout << "  " << in.first << " = " << m.eval(in.second, true) << "\n";
+    E.st = Stats();
+
+    // ---- master state
+    std::deque<std::string> queue;
+    queue.push_back("");
+    std::vector<std::string> results; // path JSON objects
+    std::vector<std::string> workerStats;
+    uint64_t dispatched = 0, done = 0;
+    bool truncated = false;
+    std::string truncReason;
+    auto wallLeft = [&]() { return wallS - std::chrono::duration<double>(std::chrono::steady_clock::now() - t1).count(); };
+
+    if (jobs <= 1) {
+        while (!queue.empty()) {
+            if (done >= maxPaths || wallLeft() < 0) {
+                truncated = true;
+                truncReason = done >= maxPaths ? "path budget" : "wall budget";
+                break;
             }
-            for (auto &f : E.stack)
-                std::cout << "    at " << demangle(f.f->getName().str()) << "\n";
+            std::string p = queue.back();
+            queue.pop_back();
+            E.work.clear();
+            results.push_back(runPath(E, rc, decPrefix(p), dispatched < sampleModels || dispatched % 16 == 0));
+            dispatched++;
+            done++;
+            for (auto &w : E.work)
+                queue.push_back(encPrefix(w));
+        }
+        workerStats.push_back(statsJson(E));
+    } else {
+        signal(SIGPIPE, SIG_IGN);
+        struct W { pid_t pid; int in, out; bool busy = false, dead = false; std::string buf; };
+        std::vector<W> ws;
+        for (int i = 0; i < jobs; i++) {
+            int p2c[2], c2p[2];
+            if (pipe(p2c) || pipe(c2p)) {
+                perror("pipe");
+                return 2;
+            }
+            pid_t pid = fork();
+            if (pid == 0) {
+                close(p2c[1]);
+                close(c2p[0]);
+                for (auto &w : ws) {
+                    close(w.in);
+                    close(w.out);
+                }
+                workerLoop(E, rc, p2c[0], c2p[1]);
+                _exit(0);
+            }
+            close(p2c[0]);
+            close(c2p[1]);
+            W w;
+            w.pid = pid;
+            w.in = c2p[0];
+            w.out = p2c[1];
+            ws.push_back(w);
+        }
+        auto nbusy = [&]() { int n = 0; for (auto &w : ws) n += w.busy; return n; };
+        for (;;) {
+            if (!truncated && (dispatched >= maxPaths || wallLeft() < 0) && !queue.empty()) {
+                truncated = true;
+                truncReason = dispatched >= maxPaths ? "path budget" : "wall budget";
+            }
+            if (!truncated)
+                for (auto &w : ws)
+                    if (!w.busy && !w.dead && !queue.empty()) {
+                        std::string p = queue.back();
+                        queue.pop_back();
+                        bool wm = dispatched < sampleModels || dispatched % 16 == 0;
+                        writeAll(w.out, std::string("P ") + (wm ? "1" : "0") + " " + p + "\n");
+                        w.busy = true;
+                        dispatched++;
+                    }
+            if (nbusy() == 0)
+                break;
+            std::vector<pollfd> fds;
+            std::vector<size_t> idx;
+            for (size_t i = 0; i < ws.size(); i++)
+                if (ws[i].busy) {
+                    fds.push_back(pollfd{ws[i].in, POLLIN, 0});
+                    idx.push_back(i);
+                }
+            int pr = poll(fds.data(), fds.size(), 1000);
+            if (pr <= 0)
+                continue;
+            for (size_t k = 0; k < fds.size(); k++) {
+                if (!(fds[k].revents & (POLLIN | POLLHUP)))
+                    continue;
+                W &w = ws[idx[k]];
+                char tmp[65536];
+                ssize_t n = read(w.in, tmp, sizeof tmp);
+                if (n <= 0) {
+                    // worker died (engine crash): the path it was running is inconclusive
+                    w.dead = true;
+                    w.busy = false;
+                    results.push_back("{\"kind\":\"inconclusive\",\"msg\":\"engine worker crashed\",\"decisions\":0,\"instrs\":0,\"queries\":0,\"solver_s\":0,\"prefix\":\"\",\"violations\":[],\"known\":[],\"notes\":[]}");
+                    done++;
+                    continue;
+                }
+                w.buf.append(tmp, (size_t)n);
+                size_t nl;
+                while ((nl = w.buf.find('\n')) != std::string::npos) {
+                    std::string line = w.buf.substr(0, nl);
+                    w.buf.erase(0, nl + 1);
+                    if (line.size() >= 2 && line[0] == 'F')
+                        queue.push_back(line.substr(2));
+                    else if (line.size() >= 2 && line[0] == 'R') {
+                        results.push_back(line.substr(2));
+                        w.busy = false;
+                        done++;
+                        if (done % 500 == 0)
+                            std::cerr << "symx: paths " << done << " queue " << queue.size() << "\n";
+                    }
+                }
+            }
+        }
+        for (auto &w : ws) {
+            if (w.dead)
+                continue;
+            writeAll(w.out, "Q\n");
+            std::string line;
+            while (readLine(w.in, w.buf, line))
+                if (line.size() >= 2 && line[0] == 'S') {
+                    workerStats.push_back(line.substr(2));
+                    break;
+                }
+        }
+        for (auto &w : ws) {
+            int stt;
+            waitpid(w.pid, &stt, 0);
         }
     }
     auto t3 = std::chrono::steady_clock::now();
-    std::cout << "paths " << E.st.paths << " forks " << E.st.forks << " queries " << E.st.queries << " slow " << E.st.slowQueries << " solver_s " << E.st.solver_s << " instrs " << (E.st.instrs - initInstr) << " wall_s " << std::chrono::duration<double>(t3 - t2).count() << " functions " << E.st.funcs.size() << "\n";
-    for (auto &o : outcomes)
-        std::cout << "  " << o.second << " x " << o.first << "\n";
-    for (auto &m : E.missing)
-        std::cout << "  missing: " << demangle(m) << "\n";
-    return violations ? 1 : 0;
+    std::ostringstream js;
+    js << "{\"entry\":" << jstr(entry) << ",\"jobs\":" << jobs << ",\"load_s\":" << std::chrono::duration<double>(t1 - t0).count() << ",\"init_instrs\":" << initInstr
+       << ",\"wall_s\":" << std::chrono::duration<double>(t3 - t1).count() << ",\"truncated\":" << (truncated ? "true" : "false") << ",\"trunc_reason\":" << jstr(truncReason)
+       << ",\"unexplored\":" << queue.size() << ",\"worker_stats\":[";
+    for (size_t i = 0; i < workerStats.size(); i++)
+        js << (i ? "," : "") << workerStats[i];
+    js << "],\"paths\":[";
+    for (size_t i = 0; i < results.size(); i++)
+        js << (i ? ",\n" : "\n") << results[i];
+    js << "]}\n";
+    if (outPath.empty())
+        std::cout << js.str();
+    else {
+        FILE *f = fopen(outPath.c_str(), "w");
+        if (!f) {
+            perror("symx: out");
+            return 2;
+        }
+        fputs(js.str().c_str(), f);
+        fclose(f);
+    }
+    return 0;
 }
